@@ -16,6 +16,7 @@ import (
 	"regexp"
 	"sort"
 	"strings"
+	"time"
 	"unicode"
 	"unicode/utf8"
 
@@ -370,4 +371,40 @@ func c19InitHandlers(run *PropRun) {
 	}
 	run.AddObligation("wScreen/page-handlers-found", "discipline", BoolT(len(names) >= 4), "the handler names the page script calls were found in webfiles/tcell.js")
 	run.Extra["page_handlers_called_by_tcell_js"] = len(names)
+}
+
+// c19MouseModes: demonstration-backed obligation for the flag semantics the enableMouse contract states: each of
+// MouseButtonEvents, MouseDragEvents ("includes button events") and MouseMotionEvents ("includes click and drag
+// events") makes a click callback an event; with no flag it is dropped. Runs the real wasm screen under node.
+func c19MouseModes(run *PropRun) {
+	src := replayTest("tcell", []string{"syscall/js"}, wasmStubs+`
+	for _, f := range []MouseFlags{0, MouseButtonEvents, MouseDragEvents, MouseMotionEvents} {
+		s := &wScreen{}
+		s.fallback = make(map[rune]string)
+		s.Init()
+		if f != 0 { s.EnableMouse(f) }
+		js.Global().Call("onMouseClick", 3, 2, 1, false, false, false)
+		got := len(s.evch)
+		want := 1
+		if f == 0 { want = 0 }
+		if got != want {
+			fail("EnableMouse(%d), then a click callback from the page: %d event(s) queued, want %d", f, got, want)
+			return
+		}
+	}`)
+	out, err := runOverlayTest(run.Eng.Repo, run.Eng.Repo, src, 120*time.Second, []string{"GOOS=js", "GOARCH=wasm"})
+	detail := ""
+	ok := false
+	switch {
+	case strings.Contains(out, "VERIF-REPLAY-FAIL"):
+		detail = firstLine(out[strings.Index(out, "VERIF-REPLAY-FAIL"):])
+	case strings.Contains(out, "VERIF-REPLAY-PASS"):
+		ok = true
+	default:
+		run.Errors = append(run.Errors, fmt.Sprintf("mouse mode demonstration did not run: %v %s", err, tail(out, 400)))
+		return
+	}
+	g := run.AddObligation("wScreen.enableMouse/click-delivered-in-every-mouse-mode", "bounded", BoolT(ok),
+		"under node: after EnableMouse(f) for each single flag a click callback from the page queues one mouse event, without a flag none "+detail)
+	g.ReplayGo = src
 }
